@@ -1,6 +1,7 @@
 package main
 
 import (
+	"encoding/hex"
 	"fmt"
 	"go/types"
 	"math"
@@ -276,6 +277,17 @@ func registerStd(e *Engine, simple func(string, func(*Run, []Value) Value)) {
 	})
 	simple("internal/bytealg.Compare", func(r *Run, a []Value) Value { return r.bytesCompare(a[0], a[1]) })
 	simple("bytes.Compare", func(r *Run, a []Value) Value { return r.bytesCompare(a[0], a[1]) })
+	simple("encoding/hex.EncodeToString", func(r *Run, a []Value) Value {
+		bs := r.byteSliceTerms(a[0])
+		if !allConst(bs) {
+			return &StrV{opaque: true} // text for logs and error messages only
+		}
+		buf := make([]byte, len(bs))
+		for i, b := range bs {
+			buf[i] = byte(b.CV)
+		}
+		return &StrV{s: hex.EncodeToString(buf)}
+	})
 	simple("strconv.Itoa", func(r *Run, a []Value) Value {
 		return &StrV{s: fmt.Sprint(r.concreteInt(a[0], "Itoa"))}
 	})
